@@ -146,7 +146,7 @@ def tok_cardinality(tier):
 DOCS = ['{"x": true}', '{"x": false}', '{"x": 1}', '{"y": 1}', "[1]", "not json", "", '{"x": "é"}', '{"x": 1.0}', '{"x": "a\u2028b"}', '{"x": 9223372036854775808}']   # 1.0 == True == 1 in Python: value-keyed caches collide
 TWO_LINE = ['{"x":\n true}', '{"x":\n false}', '{"x":\n 1}', '{"y":\n 1}', "[\n1]", "not\njson", "\n", '{"x":\n "é"}', '{"x":\n 1.0}', '{"x":\n "a\u2028b"}', '{"x":\n 9223372036854775808}']
 OPTSETS = [([], "jq"), (["-b"], "jq"), (["-p", "pk"], "pk"), (["-d", "d"], "d"), (["-b", "-d", "d"], "d")]
-DOC_EXPRS = [".x", ".x == true", ".x > 0", "{var}.x"]
+DOC_EXPRS = [".x", ".x == true", ".x > 0", "{var}.x", "[1].map(v, {var}.x)"]   # the last: a macro whose body reads the document (a closure kept from an earlier document would show)
 CONFIGS = [(opts, var, e.format(var=var)) for opts, var in OPTSETS for e in DOC_EXPRS]
 
 
